@@ -152,6 +152,13 @@ func init() {
 				}
 			}
 		}
+		// derived-key lengths far beyond anything a key file needs: the length goes straight into an allocation
+		for _, dk := range []int{1024, 1025, 4096, 1 << 62, (1 << 63) - 1} {
+			k := good
+			k.dklen, k.goodMac = dk, false
+			i++
+			run(i, k)
+		}
 		for j := 0; j < n; j++ {
 			k := good
 			switch rng.Intn(12) {
